@@ -1,0 +1,42 @@
+//go:build verif
+
+package resolved
+
+// Contracts for the govc verifier (/verif). Comment-only file: it contains no
+// executable code and is compiled only with the build tag `verif`.
+
+// Common types are inlined lazily and recursively (resolveType -> resolveTypeRef -> resolveType ...).
+// That recursion ends because phase 3 (detectCommonTypeCycles) has rejected every schema whose
+// common-type reference graph has a cycle - provided the graph the detector walks contains every
+// edge the resolver follows (C16). Both sides must therefore agree on
+//   (a) which common type a reference `ref` written in namespace `ns` denotes: commonTarget, and
+//   (b) the namespace the body of a common type is resolved in: the one it was declared in
+//       (declNs of its path), which is the namespace the detector uses for its outgoing edges.
+// The rank argument itself (a reference graph without cycles bounds the inlining depth) is
+// made outside the solver.
+//@ spec func commonTarget(cts map[types.Path]ast.IsType, ns types.Path, ref ast.TypeRef) types.Path = hasSub(string(ref), "::") ? types.Path(ref) : ((ns != types.Path("") && has(cts, types.Path(string(ns) + "::" + string(ref)))) ? types.Path(string(ns) + "::" + string(ref)) : types.Path(ref))
+//@ func extractNamespace
+//@   pure
+//@ spec func declNs(p types.Path) types.Path = extractNamespace#0(p)
+// Assumed facts about strings.LastIndex (the text of a path): a path without "::" has the empty
+// namespace; the namespace of ns::name is ns when name has no "::".
+//@ axiom declNs_bare: forall p types.Path :: { declNs(p) } !hasSub(string(p), "::") ==> declNs(p) == types.Path("")
+//@ axiom declNs_qualified: forall ns types.Path, name string :: { declNs(types.Path(string(ns) + "::" + name)) } !hasSub(name, "::") ==> declNs(types.Path(string(ns) + "::" + name)) == ns
+
+// The detector's edge function.
+//@ func (resolverState) resolveTypeRefPath
+//@   props C16
+//@   requires r != nil
+//@   results p
+//@   ensures agrees: p == commonTarget(r.commonTypes, ns, ref)
+
+// The resolver's recursive calls.
+//@ func (resolverState) resolveTypeRef
+//@   props C16
+//@   requires r != nil
+//@   assert before "return r.resolveType(ns, ct)" follows_detector_edge: has(r.commonTypes, commonTarget(r.commonTypes, ns, ref)) && ct == r.commonTypes[commonTarget(r.commonTypes, ns, ref)] && declNs(commonTarget(r.commonTypes, ns, ref)) == ns
+//@   assert before `return r.resolveType("", ct)` follows_detector_edge_bare: has(r.commonTypes, commonTarget(r.commonTypes, ns, ref)) && ct == r.commonTypes[commonTarget(r.commonTypes, ns, ref)] && declNs(commonTarget(r.commonTypes, ns, ref)) == types.Path("")
+//@ func (resolverState) resolveQualifiedTypeRef
+//@   props C16
+//@   requires r != nil
+//@   assert before "return r.resolveType(ns, ct)" declared_namespace: has(r.commonTypes, types.Path(ref)) && ct == r.commonTypes[types.Path(ref)] && ns == declNs(types.Path(ref))
